@@ -266,6 +266,9 @@ def gen_sa(tier, seed):
     yield {'zone': 54, 'north': 6543210.123, 'easts': [2e5, 3e5, 4e5, 5e5, 6e5, 7e5, 8e5], 'mode': 'csv', 'dupids': True}
     yield {'zone': 55, 'north': 6.2e6, 'easts': es, 'mode': 'csv', 'spell': 1}
     yield {'zone': 50, 'north': 5813614.161, 'easts': [321405.559, 444444.4444, 5e5, 612345.678, 7e5, 100000.5, 2e5, 3e5], 'mode': 'csv', 'spell': 1}
+    # the AMOUNT of input: files larger than the usual buffer sizes (8 KiB, 64 KiB, 1 MiB; thorough: 4 MiB) - every row comes out
+    for nrows in ([250, 2000, 30000] if tier == 'quick' else [250, 2000, 30000, 110000]):
+        yield {'zone': 55, 'north': 6251064.8483, 'easts': [], 'nrows': nrows, 'mode': 'csv', 'longnames': True}
 
 
 def hp_to_dec(hp):
@@ -280,6 +283,8 @@ def ev_sa(case, rec):
     m = standalone()
     z, north = case['zone'], case['north']
     if case['mode'] == 'csv':
+        if case.get('nrows'):
+            case = dict(case, easts=[round(2.0e5 + (i * 1337.7331) % 6.0e5, 4) for i in range(case['nrows'])])
         d = os.path.join(SCRATCH, 'c02_sa_%d' % os.getpid())
         os.makedirs(d, exist_ok=True)
         fn_in = os.path.join(d, 'pts.csv')
@@ -291,6 +296,8 @@ def ev_sa(case, rec):
                 sp = case.get('spell', 0) and (i % 4)
                 fmt = [repr, lambda v: '%.17e' % v, lambda v: '+' + repr(v), lambda v: ' %r ' % v][sp]
                 pid = 'P%d' % i if not case.get('dupids') else ['RM1', 'RM1', '', '', 'P7', 'RM1'][i % 6]
+                if case.get('longnames'):
+                    pid = 'PERMANENT-MARK-%08d' % i
                 w.writerow([pid, z if sp != 1 else '%.1e' % z if z % 10 == 0 else '%.2E' % z, fmt(e), fmt(north)])
         if case.get('noeol'):
             # the last line of the file without a line terminator (as most editors and many exporters leave it)
@@ -306,9 +313,16 @@ def ev_sa(case, rec):
         os.rmdir(d)
         if len(rows) != len(case['easts']):
             rec.fail('batch converter wrote %d rows for %d inputs' % (len(rows), len(case['easts'])),
-                     site='Standalone:grid2geoio')
+                     site='Standalone:grid2geoio', case=dict(case, easts=case['easts'][:2]), coords={'rows_in': len(case['easts']), 'rows_out': len(rows)})
             return
-        for e, row in zip(case['easts'], rows):
+        step = max(1, len(rows) // 1500)
+        for i, (e, row) in enumerate(zip(case['easts'], rows)):
+            if case.get('longnames') and row[0] != 'PERMANENT-MARK-%08d' % i:
+                rec.fail('row %d of the output does not carry the name of row %d of the input' % (i, i), site='Standalone:grid2geoio', observed=row[0],
+                         case=dict(case, easts=[e]))
+                return
+            if i % step and i < len(rows) - 3:
+                continue
             lat_l, lon_l = grid2geo(z, e, north)[:2]
             rec.transition()
             la, lo = hp_to_dec(float(row[1])), hp_to_dec(float(row[2]))
@@ -369,12 +383,13 @@ from gpmc import callforms as _cf
 from gpmc import interp as _ip
 
 
+from gpmc import manyobj as _mo
 SUBCHECKS = [
     Sub('geo_roundtrip', gen_geo, ev_geo, chunk=16, floor=1000, envs=24),
     Sub('grid_lattice', gen_grid, ev_grid, chunk=8, floor=1000, envs=24),
     Sub('standalone', gen_sa, ev_sa, chunk=8, floor=500, envs=1),
     Sub('threads', _tg, _te, chunk=1, floor=3, poison=False, fresh=True, timeout=3600),
-    Sub('callforms', *_cf.make('C02', 'convert'), chunk=1, floor=1, guard=True),
+    Sub('many_objects', *_mo.make('C02', 'convert'), chunk=1, floor=3, poison=False, fresh=True, timeout=3600), Sub('callforms', *_cf.make('C02', 'convert'), chunk=1, floor=1, guard=True),
     Sub('interpreter', *_ip.make('C02', 'convert'), chunk=1, floor=5, poison=False),
 ]
 
